@@ -364,6 +364,7 @@ impl Scenario for C07 {
         let plan = SessionPlan { opts: ConnOpts::default(), tuning: Tuning::default(), threads, owner_ops: vec![], close: CloseKind::Close, join_before_close: true };
         let mut sched = SchedCfg::default();
         sched.stick_pct = *pick(&mut cs, "stick", &[90u32, 50]);
+        crate::gen::gen_pct(&mut cs, &mut sched, 4);
         sched.hang_after_ns = 20_000_000_000;
         if busy_writer {
             sched.step_cap = 3_000_000;
